@@ -69,6 +69,7 @@ C07(i) ==
        <<"C07.positions_agree_with_grid", shape => AgentChanAgrees(s) /\ ShelfChanAgrees(s)>>,
        <<"C07.conserved_shelves", shape => ShelvesConserved(s)>>,
        <<"C07.carrier_stands_on_its_shelf", shape => CarrierHasShelf(s)>>,
+       <<"C07.uncarried_shelf_rests_on_slot", shape => RestingOnSlots(s)>>,
        <<"C07.request_queue_distinct", QueueOK(s) /\ (shape => RequestedAgrees(s))>> }
      \cup (IF IsStep(i)
            THEN { <<"C07.conserved_carried_shelf_moves_with_agent", shape => CarriedFollows(Pre(i), s)>>,
